@@ -188,6 +188,12 @@ def run(db, chk):
                 n_pan += 1
                 key = "%s|%s" % (f.name, kind)
                 r = panics.get(key)
+                if r is not None and r.get("requires"):
+                    # the review rests on a structural precondition elsewhere: it must still be there
+                    for frx, crx in r["requires"]:
+                        holders = [g for n_, g in byname.items() if re.search(frx, n_)]
+                        if not holders or not any(g.calls_to(crx) for g in holders):
+                            r = dict(r, **{"class": "panics", "reason": "the precondition the review relied on is gone: %s must call %s; %s" % (frx, crx, r["reason"])})
                 if r is None:
                     chk.ob("panic-site-reviewed", "%s %s!@%d" % (f.name, kind, c.line), False, "explicit %s! in parser code that is not on the reviewed list" % kind, c.where(), key="panic|%s" % key)
                 elif r["class"] == "panics":
